@@ -18,14 +18,19 @@ def run(tier):
     wd = vlib.workdir("C10")
     quick = tier == "quick"
     D, A, U = rc.OPTS_DEFAULT, rc.OPTS_ALL, rc.OPTS_NOUNI
-    variants = [("def", D, [], False), ("all", A, [], False), ("nouni", U, [], False)]
+    # (the two asymmetric NaN / Infinity settings are part of the quick tier too: each option must stay
+    #  independent of the other)
+    NANONLY = dict(comments=False, nan=True, inf=False, unicode=True)
+    INFONLY = dict(comments=False, nan=False, inf=True, unicode=True)
+    variants = [("def", D, [], False), ("all", A, [], False), ("nouni", U, [], False),
+                (rc.opt_name(NANONLY), NANONLY, [], False), (rc.opt_name(INFONLY), INFONLY, [], False)]
     if not quick:
         for c in (0, 1):
             for n in (0, 1):
                 for i in (0, 1):
                     for u in (0, 1):
                         o = dict(comments=bool(c), nan=bool(n), inf=bool(i), unicode=bool(u))
-                        if o not in (D, A, U):
+                        if o not in (D, A, U, NANONLY, INFONLY):
                             variants.append((rc.opt_name(o), o, [], False))
     bins = rk.build_readers(variants)
     by_opts = rk.group_by_opts(bins, variants)
@@ -37,13 +42,15 @@ def run(tier):
             ("keyword", "keyword", 4 + k, L, "none", D), ("comment-all", "comment", 4 + k, L, "none", A),
             ("comment-off", "comment", 4, L, "none", D), ("hex", "hex", 3 + k, L, "none", D),
             ("tokens", "tokens", 3 + k, L, "none", D)]
+    for label, o, _, _ in variants[3:5]:
+        plan += [(f"keyword-{label}", "keyword", 4, L, "none", o), (f"number-{label}", "number", 4, L, "none", o)]
     if not quick:
-        for label, o, _, _ in variants[3:]:
+        for label, o, _, _ in variants[5:]:
             plan += [(f"chars-{label}", "chars", 4, L, "none", o), (f"number-{label}", "number", 4, L, "none", o),
                      (f"comment-{label}", "comment", 4, L, "none", o), (f"keyword-{label}", "keyword", 4, L, "none", o)]
     rk.run_mc(chk, wd, by_opts, plan)
     rng = random.Random(vlib.seed())
-    for label, o, _, _ in variants[:3] if quick else variants:
+    for label, o, _, _ in variants[:5] if quick else variants:
         lines = rg.gen_mutants(rng, o, 2500 if quick else 20000)
         lines += rg.gen_long_tokens(rng, o, 800 if quick else 8000)
         lines += rg.gen_duplicate_keys(rng, o)
